@@ -1088,6 +1088,13 @@ impl CollectionV3 {
     pub fn load_contig_batch(&mut self, archive: &mut Archive, id_batch: usize) -> Result<()> {
         // Use cumulative samples_loaded counter, NOT id_batch * batch_size
         // C++ AGC creates batches of ~50 samples, but batch_size defaults to 1M which is wrong
+        //
+        // A pass over the batches starts at batch 0: restart the cursor there. Callers reload
+        // every batch for unknown sample names and for whole-archive queries; without the
+        // restart a second pass continues behind the last sample and indexes past sample_desc.
+        if id_batch == 0 {
+            self.samples_loaded = 0;
+        }
         let i_sample = self.samples_loaded;
 
         // Load contig names
